@@ -121,6 +121,9 @@ func init() {
 		"math.Max": {"max over the reals (NaN not modelled)", func(fr *frame, x *ssa.Call, a []*Term, st *state) []*Term {
 			return []*Term{{S: "(ite (>= " + a[0].S + " " + a[1].S + ") " + a[0].S + " " + a[1].S + ")", T: types.Typ[types.Float64]}}
 		}},
+		"math.Min": {"min over the reals (NaN not modelled)", func(fr *frame, x *ssa.Call, a []*Term, st *state) []*Term {
+			return []*Term{{S: "(ite (<= " + a[0].S + " " + a[1].S + ") " + a[0].S + " " + a[1].S + ")", T: types.Typ[types.Float64]}}
+		}},
 		"time.Parse": {"(t, err) with timeUnix(t) == parseUnix(layout, v), err == nil iff parseTimeOk(layout, v)", func(fr *frame, x *ssa.Call, a []*Term, st *state) []*Term {
 			g := fr.g
 			tt := x.Common().Signature().Results().At(0).Type()
